@@ -442,6 +442,15 @@ thread_local! {
     pub static LAST_PANIC: std::cell::RefCell<String> = const { std::cell::RefCell::new(String::new()) };
 }
 
+/// Caps the address space of a worker so that a runaway allocation fails in the worker instead of
+/// exhausting the machine.
+pub fn limit_memory() {
+    unsafe {
+        let lim = libc::rlimit { rlim_cur: 10 << 30, rlim_max: 10 << 30 };
+        libc::setrlimit(libc::RLIMIT_AS, &lim);
+    }
+}
+
 pub fn install_quiet_panic_hook() {
     std::panic::set_hook(Box::new(|info| {
         let loc = info.location().map(|l| format!("{}:{}", l.file(), l.line())).unwrap_or_default();
@@ -458,6 +467,7 @@ pub fn make_ctx(prop: &dyn Prop, tier: Tier, seed: u64, worker: usize, workers: 
 /// `SUMMARY <json>` line and optionally one `FAIL <json>` line.
 pub fn worker_main(prop: &'static dyn Prop, tier: Tier, seed: u64, worker: usize, workers: usize) -> i32 {
     install_quiet_panic_hook();
+    limit_memory();
     let h = std::thread::Builder::new()
         .stack_size(WORKER_STACK)
         .spawn(move || worker_body(prop, tier, seed, worker, workers))
@@ -605,6 +615,7 @@ fn choice_strategy() -> impl Strategy<Value = u32> {
 /// `svf one <ID> <choices-file>`: prints `RESULT <json>`; exit code 0 unless the process dies.
 pub fn one_main(prop: &'static dyn Prop, tier: Tier, seed: u64, path: &str, strict: bool) -> i32 {
     install_quiet_panic_hook();
+    limit_memory();
     let s = std::fs::read_to_string(path).unwrap_or_default();
     let v = choices_from_string(&s);
     let h = std::thread::Builder::new()
